@@ -144,10 +144,23 @@ pub mod rust_log_ref_finder
                     let rule_ref_container_span = rule_l2.as_span();
                     let mut kvp_spans: Vec<(pest::Span, Option<pest::Span>)> = Vec::new();
 
+                    // Start of the first argument following a target argument, if there is one.
+                    let mut target_arg_found = false;
+                    let mut pos_after_target_arg: Option<pest::Position> = None;
+
                     for rule in rule_l2.into_inner()
                     {
+                        if target_arg_found && pos_after_target_arg.is_none()
+                        {
+                            pos_after_target_arg = Some(rule.as_span().start_pos());
+                        }
+
                         match rule.as_rule()
                         {
+                            Rule::target_arg =>
+                            {
+                                target_arg_found = true;
+                            },
                             Rule::string_literal =>
                             {
                                 log_message_span = match rule.into_inner().next()
@@ -264,11 +277,23 @@ pub mod rust_log_ref_finder
                                 insertion_suffix = Some("; ".to_string());
                             }
 
-                            code_pos = Some(CodePosition::new(
-                                rule_ref_container_span.start() + 1,
-                                rule_ref_container_span.start_pos().line_col().0,
-                                rule_ref_container_span.start_pos().line_col().1 + 1,
-                            ));
+                            /*
+                             * Key-value pairs come after the target argument, if there is one;
+                             * otherwise they are the first thing in the argument list.
+                             */
+                            code_pos = Some(match &pos_after_target_arg
+                            {
+                                Some(pos) => CodePosition::new(
+                                    pos.pos(),
+                                    pos.line_col().0,
+                                    pos.line_col().1,
+                                ),
+                                None => CodePosition::new(
+                                    rule_ref_container_span.start() + 1,
+                                    rule_ref_container_span.start_pos().line_col().0,
+                                    rule_ref_container_span.start_pos().line_col().1 + 1,
+                                ),
+                            });
                         }
                     }
                     else
